@@ -71,23 +71,6 @@ def _run(cmd, cwd, log, env=None):
         raise BuildError('build step failed: %s (cwd=%s)\n%s' % (cmd, cwd, tail))
     return time.time() - t
 
-def _prune(keep):
-    """Delete all cached trees except the `keep` most recently used (and the one in use)."""
-    try:
-        ents = []
-        for d in os.listdir(WORK):
-            p = os.path.join(WORK, d)
-            if d == 'run' or not os.path.isdir(p):
-                continue
-            ents.append((os.path.getmtime(p), p))
-        ents.sort(reverse=True)
-        for _, p in ents[keep:]:
-            shutil.rmtree(p, ignore_errors=True)
-            try: os.unlink(p + '.lock')
-            except OSError: pass
-    except OSError:
-        pass
-
 class Build:
     def __init__(self, root, th):
         self.root = root            # <treehash>
@@ -99,10 +82,6 @@ class Build:
         self.aldor_asan = os.path.join(self.B, 'aldor', 'src_asan', 'aldor')
         self.S_asan = os.path.join(self.B, 'aldor', 'src_asan')
         self.info = {}
-        ip = os.path.join(root, 'info.json')
-        if os.path.exists(ip):
-            try: self.info = json.load(open(ip))
-            except Exception: self.info = {}
 
     # common flags for the compiler
     def flags(self, lib='aldor'):
@@ -127,68 +106,143 @@ class Build:
             return ['%s/aldor/lib/libfoamlib/libfoamlib.a' % B, '%s/aldor/lib/libfoam/libfoam.a' % B, '-lm']
         raise ValueError(lib)
 
+def _snapshot(root, b, incremental):
+    files = sorted(set(_tracked()) | set(_generated()))
+    files = [f for f in files if not f.startswith(SKIP_PREFIX) and os.path.lexists(os.path.join(REPO, f))]
+    lst = os.path.join(root, 'files.lst')
+    prevfiles = []
+    if incremental and os.path.exists(lst):
+        prevfiles = [f for f in open(lst).read().split('\n') if f]
+    with open(lst + '.new', 'w') as fh:
+        fh.write('\n'.join(files) + '\n')
+    r = subprocess.run(['rsync', '-a', '--checksum', '--itemize-changes', '--files-from=' + lst + '.new', REPO + '/', b.src + '/'],
+                       check=True, stdout=subprocess.PIPE)
+    changed = [l.split(' ', 1)[1] for l in r.stdout.decode().split('\n') if l[:2] in ('>f', 'cL')]
+    for f in sorted(set(_generated())):
+        if f.startswith(SKIP_PREFIX):
+            d = os.path.join(b.src, os.path.dirname(f)); os.makedirs(d, exist_ok=True)
+            if not os.path.exists(os.path.join(b.src, f)): shutil.copy2(os.path.join(REPO, f), os.path.join(b.src, f))
+    if incremental:
+        have = set(files)
+        for f in prevfiles:       # a tracked file that disappeared from the working tree must disappear here too
+            if f not in have:
+                try: os.unlink(os.path.join(b.src, f)); changed.append(f)
+                except OSError: pass
+        now = time.time()
+        for f in changed:
+            try: os.utime(os.path.join(b.src, f), (now, now))
+            except OSError: pass
+    os.replace(lst + '.new', lst)
+    return changed
+
+_held = []   # keep the shared lock for the life of the process
+
 def ensure(variants=('plain',), quiet=False):
-    """Return a Build whose requested variants exist; builds them if needed.
-    Raises BuildError if the tree does not build."""
+    """Return a Build of /repo's current working tree with the requested variants; builds what is missing.
+    variants: 'core' (compiler + archives), 'plain' (core + runtime and libraries built by that compiler),
+    'asan' (second compiler + archives, malloc store, ASan/bounds).
+    One build tree is kept ($VF_WORK/tree; the configured Makefiles hold absolute paths, so it cannot move) and is
+    brought up to date in place: changed files are copied in and make rebuilds what depends on them; libraries and
+    the asan copy are always rebuilt when any source changed.  Processes using the tree hold a shared lock; a rebuild
+    takes the exclusive lock.  Raises BuildError if the tree does not build."""
     os.makedirs(WORK, exist_ok=True)
     th = tree_hash()
-    root = os.path.join(WORK, th)
-    lock = open(root + '.lock', 'w')
-    fcntl.flock(lock, fcntl.LOCK_EX)
-    try:
-        os.makedirs(root, exist_ok=True)
-        os.utime(root, None)
-        _prune(2)
-        b = Build(root, th)
-        log = os.path.join(root, 'build.log')
-        info = b.info
-        def stamp(v): return os.path.join(root, 'ok.' + v)
-        def say(m):
-            if not quiet: print('[build %s] %s' % (th, m), file=sys.stderr, flush=True)
-        # every variant needs the snapshot + configure + plain base
-        need = list(variants)
-        if not os.path.exists(stamp('plain')):
-            say('snapshot + configure + plain build (about 2-3 min)')
-            if os.path.exists(b.src): shutil.rmtree(b.src)
-            os.makedirs(b.src)
-            files = sorted(set(_tracked()) | set(_generated()))
-            files = [f for f in files if not f.startswith(SKIP_PREFIX) and os.path.lexists(os.path.join(REPO, f))]
-            lst = os.path.join(root, 'files.lst')
-            with open(lst, 'w') as fh:
-                fh.write('\n'.join(files) + '\n')
-            subprocess.run(['rsync', '-a', '--files-from=' + lst, REPO + '/', b.src + '/'], check=True)
-            # Makefile.in for skipped dirs are still needed by configure: copy them (tiny)
-            for f in sorted(set(_generated())):
-                if f.startswith(SKIP_PREFIX):
-                    d = os.path.join(b.src, os.path.dirname(f)); os.makedirs(d, exist_ok=True)
-                    shutil.copy2(os.path.join(REPO, f), os.path.join(b.src, f))
+    root = os.path.join(WORK, 'tree')
+    os.makedirs(root, exist_ok=True)
+    lockpath = os.path.join(WORK, 'tree.lock')
+    need = set(variants)
+    if 'plain' in need or 'asan' in need: need.add('core')
+    def say(m):
+        if not quiet: print('[build %s] %s' % (th, m), file=sys.stderr, flush=True)
+    def state():
+        try: return json.load(open(os.path.join(root, 'state.json')))
+        except Exception: return {}
+    for attempt in range(100):
+        lock = open(lockpath, 'w')
+        fcntl.flock(lock, fcntl.LOCK_SH)
+        st = state()
+        if st.get('hash') == th and all(v in st.get('done', []) for v in need):
+            _held.append(lock)
+            b = Build(root, th); b.info = st.get('info', {})
+            return b
+        # need to build: upgrade to exclusive (release first to avoid deadlock between two upgraders)
+        fcntl.flock(lock, fcntl.LOCK_UN)
+        fcntl.flock(lock, fcntl.LOCK_EX)
+        try:
+            st = state()
+            if st.get('hash') != th:
+                st = _rebuild_core(root, th, st, say)
+            b = Build(root, th)
+            _build_variants(root, b, st, need, say)
+        finally:
+            fcntl.flock(lock, fcntl.LOCK_UN); lock.close()
+    raise BuildError('could not obtain a stable build tree')
+
+def _save(root, st):
+    tmp = os.path.join(root, 'state.json.tmp')
+    json.dump(st, open(tmp, 'w'), indent=1)
+    os.replace(tmp, os.path.join(root, 'state.json'))
+
+def _rebuild_core(root, th, st, say):
+    b = Build(root, th)
+    log = os.path.join(root, 'build.log')
+    mk = 'make -j%s CFLAGS="%s" ' % (J, PLAIN_FLAGS)
+    incremental = bool(st.get('hash')) and os.path.exists(os.path.join(b.B, 'config.status')) and not os.environ.get('VF_FULL_BUILD')
+    for full in ((False, True) if incremental else (True,)):
+        try:
+            open(log, 'w').close()
             t = {}
-            mk = 'make -j%s CFLAGS="%s" ' % (J, PLAIN_FLAGS)
-            t['configure'] = _run('CFLAGS=-Wno-error ./configure', b.B, log)
+            _save(root, {'hash': None, 'done': [], 'info': {}})      # tree is in flux
+            if full:
+                say('snapshot + configure + compiler (full build)')
+                if os.path.exists(b.src): shutil.rmtree(b.src)
+                os.makedirs(b.src)
+                try: os.unlink(os.path.join(root, 'files.lst'))
+                except OSError: pass
+                changed = _snapshot(root, b, False)
+                changed = None
+                t['configure'] = _run('CFLAGS=-Wno-error ./configure', b.B, log)
+            else:
+                changed = _snapshot(root, b, True)
+                say('incremental: %d changed files: %s' % (len(changed), ' '.join(changed[:6])))
+                if any(os.path.basename(f) in ('configure', 'configure.ac', 'Makefile.in', 'Makefile.am', 'aclocal.m4') for f in changed):
+                    raise BuildError('build system files changed: full rebuild')
+                for sub in ('aldor/lib', 'lib/aldor', 'lib/axllib/src'):
+                    subprocess.run('make clean', shell=True, cwd=os.path.join(b.B, sub), stdout=subprocess.DEVNULL, stderr=subprocess.DEVNULL)
+                shutil.rmtree(b.S_asan, ignore_errors=True)
             t['tools'] = _run(mk + '-C aldor/tools', b.B, log)
             _run('make CFLAGS="%s" -C aldor/src comsgdb.c' % PLAIN_FLAGS, b.B, log)
             t['compiler'] = _run(mk + '-C aldor/src aldor libgen.a libport.a libstruct.a', b.B, log)
             t['subcmd'] = _run(mk + '-C aldor/subcmd', b.B, log)
-            t['runtime'] = _run(mk + '-C aldor/lib', b.B, log)
-            t['libaldor'] = _run(mk + '-C lib/aldor', b.B, log)
-            t['libaxllib'] = _run(mk + '-C lib/axllib/src', b.B, log)
-            info['plain'] = {'flags': PLAIN_FLAGS, 'wall_s': {k: round(v, 1) for k, v in t.items()}}
-            open(stamp('plain'), 'w').write('ok\n')
-        if 'asan' in need and not os.path.exists(stamp('asan')):
-            say('asan compiler build')
-            sa = b.S_asan
-            if os.path.exists(sa): shutil.rmtree(sa)
-            subprocess.run(['rsync', '-a', '--exclude=*.o', '--exclude=*.a', '--exclude=/aldor',
-                            '--exclude=/test/', b.S + '/', sa + '/'], check=True)
-            t = _run('make -j%s CFLAGS="%s" aldor libgen.a libport.a libstruct.a' % (J, ASAN_FLAGS), sa, log)
-            info['asan'] = {'flags': ASAN_FLAGS, 'wall_s': round(t, 1)}
-            open(stamp('asan'), 'w').write('ok\n')
-        b.info = info
-        json.dump(info, open(os.path.join(root, 'info.json'), 'w'), indent=1)
-        return b
-    finally:
-        fcntl.flock(lock, fcntl.LOCK_UN)
-        lock.close()
+            st = {'hash': th, 'done': ['core'], 'info': {'core': {'flags': PLAIN_FLAGS, 'incremental': not full,
+                  'changed_files': changed[:20] if changed else changed, 'wall_s': {k: round(v, 1) for k, v in t.items()}}}}
+            _save(root, st)
+            return st
+        except BuildError as e:
+            if full: raise
+            say('incremental build failed, retrying from scratch')
+    raise BuildError('unreachable')
+
+def _build_variants(root, b, st, need, say):
+    log = os.path.join(root, 'build.log')
+    mk = 'make -j%s CFLAGS="%s" ' % (J, PLAIN_FLAGS)
+    if 'plain' in need and 'plain' not in st['done']:
+        say('runtime + libraries with this compiler')
+        t = {}
+        t['runtime'] = _run(mk + '-C aldor/lib', b.B, log)
+        t['libaldor'] = _run(mk + '-C lib/aldor', b.B, log)
+        t['libaxllib'] = _run(mk + '-C lib/axllib/src', b.B, log)
+        st['info']['plain'] = {'flags': PLAIN_FLAGS, 'wall_s': {k: round(v, 1) for k, v in t.items()}}
+        st['done'].append('plain'); _save(root, st)
+    if 'asan' in need and 'asan' not in st['done']:
+        say('asan compiler build')
+        sa = b.S_asan
+        if os.path.exists(sa): shutil.rmtree(sa)
+        subprocess.run(['rsync', '-a', '--exclude=*.o', '--exclude=*.a', '--exclude=/aldor',
+                        '--exclude=/test/', b.S + '/', sa + '/'], check=True)
+        t = _run('make -j%s CFLAGS="%s" aldor libgen.a libport.a libstruct.a' % (J, ASAN_FLAGS), sa, log)
+        st['info']['asan'] = {'flags': ASAN_FLAGS, 'wall_s': round(t, 1)}
+        st['done'].append('asan'); _save(root, st)
 
 if __name__ == '__main__':
     vs = sys.argv[1:] or ['plain']
